@@ -41,6 +41,18 @@ func timeVal(t int64) model.Value { return model.Value{Kind: 'i', I: t} }
 type expGroup struct {
 	Alts [][]model.Value
 	Take int
+	// for the finding classifier (aggregates only)
+	Empty   bool         // a bucket without data (filled)
+	Leading bool         // filled with null because no bucket with data precedes it
+	Points  [][]model.Value // first/last: every (time,value) of the bucket / group
+}
+
+// quirks are models of KNOWN defects of the product (see known_findings.d/c08.json).
+// The reference oracle never uses them; the classifier evaluates a failing answer
+// against them to name the finding precisely.
+type quirks struct {
+	NullRows  bool // a field filter keeps rows whose selected fields are all null
+	PrevLater bool // descending fill(previous) takes the value of the later bucket
 }
 
 type expSeries struct {
@@ -78,6 +90,19 @@ func (e *expected) rows() int {
 		}
 	}
 	return n
+}
+
+func (p *pred) fields(out *[]string) {
+	if p == nil {
+		return
+	}
+	switch p.Op {
+	case "field":
+		*out = append(*out, p.Key)
+	case "and", "or":
+		p.L.fields(out)
+		p.R.fields(out)
+	}
 }
 
 func evalPred(p *pred, r *mrow) bool {
@@ -174,7 +199,7 @@ func floorDiv(a, b int64) int64 {
 
 // evaluate computes the admissible answers of q (in the order asked for) over rows.
 // schema: the fields that exist in the measurement.
-func evaluate(q *querySpec, rows []mrow, schema map[string]byte, desc bool) *expected {
+func evaluate(q *querySpec, rows []mrow, schema map[string]byte, desc bool, qk quirks) *expected {
 	dims := q.dims()
 	type grp struct {
 		tags map[string]string
@@ -204,6 +229,10 @@ func evaluate(q *querySpec, rows []mrow, schema map[string]byte, desc bool) *exp
 	}
 	sort.Strings(keys)
 	exp := &expected{}
+	var hasTag, hasField bool
+	q.Where.kinds(&hasTag, &hasField)
+	var condFields []string
+	q.Where.fields(&condFields)
 	if !q.Agg {
 		// ---- plain selection
 		var cols []string
@@ -253,6 +282,14 @@ func evaluate(q *querySpec, rows []mrow, schema map[string]byte, desc bool) *exp
 						}
 					} else {
 						row = append(row, model.Str(r.tags[c]))
+					}
+				}
+				if !any && qk.NullRows {
+					// defect model: the row exists if any field the WHERE clause reads has a value
+					for _, f := range condFields {
+						if _, ok := r.f[f]; ok {
+							any = true
+						}
 					}
 				}
 				if !any {
@@ -387,7 +424,13 @@ func evaluate(q *querySpec, rows []mrow, schema map[string]byte, desc bool) *exp
 				alts = append(alts, []model.Value{t, a[1]})
 			}
 			alts = dedup(alts)
-			es.Groups = []expGroup{{Alts: alts, Take: 1}}
+			g := expGroup{Alts: alts, Take: 1}
+			if q.Func == "first" || q.Func == "last" {
+				for _, p := range ps {
+					g.Points = append(g.Points, []model.Value{timeVal(p.t), p.v})
+				}
+			}
+			es.Groups = []expGroup{g}
 			exp.Series = append(exp.Series, es)
 			continue
 		}
@@ -406,7 +449,13 @@ func evaluate(q *querySpec, rows []mrow, schema map[string]byte, desc bool) *exp
 			byBucket[b] = append(byBucket[b], p)
 		}
 		var prev [][]model.Value // alternatives of the previous bucket's value (fill previous)
-		for b := b0; b <= b1; b++ {
+		step := int64(1)
+		bFrom, bTo := b0, b1
+		if qk.PrevLater && desc {
+			// the defect model: buckets are filled in output (descending) order
+			step, bFrom, bTo = -1, b1, b0
+		}
+		for b := bFrom; b != bTo+step; b += step {
 			bt := timeVal(b * d)
 			if bp := byBucket[b]; len(bp) > 0 {
 				var alts [][]model.Value
@@ -414,7 +463,13 @@ func evaluate(q *querySpec, rows []mrow, schema map[string]byte, desc bool) *exp
 					alts = append(alts, []model.Value{bt, a[1]})
 				}
 				alts = dedup(alts)
-				es.Groups = append(es.Groups, expGroup{Alts: alts, Take: 1})
+				g := expGroup{Alts: alts, Take: 1}
+				if q.Func == "first" || q.Func == "last" {
+					for _, p := range bp {
+						g.Points = append(g.Points, []model.Value{bt, p.v})
+					}
+				}
+				es.Groups = append(es.Groups, g)
 				prev = alts
 				continue
 			}
@@ -426,16 +481,16 @@ func evaluate(q *querySpec, rows []mrow, schema map[string]byte, desc bool) *exp
 				if q.Func == "count" {
 					v = model.Int(0)
 				}
-				es.Groups = append(es.Groups, expGroup{Alts: [][]model.Value{{bt, v}}, Take: 1})
+				es.Groups = append(es.Groups, expGroup{Alts: [][]model.Value{{bt, v}}, Take: 1, Empty: true})
 			case "previous":
 				if prev == nil {
-					es.Groups = append(es.Groups, expGroup{Alts: [][]model.Value{{bt, null}}, Take: 1})
+					es.Groups = append(es.Groups, expGroup{Alts: [][]model.Value{{bt, null}}, Take: 1, Empty: true, Leading: true})
 				} else {
 					var alts [][]model.Value
 					for _, a := range prev {
 						alts = append(alts, []model.Value{bt, a[1]})
 					}
-					es.Groups = append(es.Groups, expGroup{Alts: alts, Take: 1})
+					es.Groups = append(es.Groups, expGroup{Alts: alts, Take: 1, Empty: true})
 				}
 			default:
 				n, _ := strconv.ParseInt(q.Fill, 10, 64)
@@ -443,8 +498,11 @@ func evaluate(q *querySpec, rows []mrow, schema map[string]byte, desc bool) *exp
 				if rk == 'f' {
 					v = model.Float(float64(n))
 				}
-				es.Groups = append(es.Groups, expGroup{Alts: [][]model.Value{{bt, v}}, Take: 1})
+				es.Groups = append(es.Groups, expGroup{Alts: [][]model.Value{{bt, v}}, Take: 1, Empty: true})
 			}
+		}
+		if step < 0 {
+			reverseGroups(es.Groups) // back to ascending
 		}
 		if desc {
 			reverseGroups(es.Groups)
